@@ -547,6 +547,7 @@ mod verif_cex {
         let mut cases = 0u64;
         // (a) no pattern: every sequence of <= 4 lines over the 12-line alphabet, <= 5 lines over the
         //     7-line alphabet; x 6 direction spellings x {lexicographic, numeric}; layout 0.
+        let t0 = std::time::Instant::now();
         let mut fast = Fast::new(&parsers);
         let mut trim_configs = Vec::new();
         for direction in DIRECTIONS {
@@ -559,8 +560,7 @@ mod verif_cex {
                 fast.run("V1", &trim_configs, &seq, &mut cases);
             }
         }
-        // (b) patterns: every sequence of <= 3 lines over the annotated 12-line alphabet
-        //     x {group, plain} x {asc, desc, ASC} x {lexicographic, numeric}; layout 0.
+        eprintln!("TIMING a {:?} cases {}", t0.elapsed(), cases);
         let mut pattern_configs = Vec::new();
         for mode in [Mode::Group, Mode::Plain] {
             for direction in [Some("asc"), Some("desc"), Some("ASC")] {
@@ -572,6 +572,7 @@ mod verif_cex {
         for seq in sequences(&PATTERN_ALPHABET, 3) {
             fast.run("V1", &pattern_configs, &seq, &mut cases);
         }
+        eprintln!("TIMING b {:?} cases {}", t0.elapsed(), cases);
         // (c) every layout: sequences of <= 3 lines over a 6-line alphabet, asc/desc, all three key modes.
         let small_trim = [t("b"), t("a"), t("  ab"), t(""), t("\u{e9} a "), t("10")];
         let small_pattern = [PATTERN_ALPHABET[0], PATTERN_ALPHABET[1], PATTERN_ALPHABET[4], PATTERN_ALPHABET[5], PATTERN_ALPHABET[10], PATTERN_ALPHABET[11]];
@@ -589,6 +590,7 @@ mod verif_cex {
                 }
             }
         }
+        eprintln!("TIMING c {:?} cases {}", t0.elapsed(), cases);
         // (d) longer random blocks (seeded from VERIF_SEED).
         let mut rng = Lcg::from_env();
         for _ in 0..3000 {
